@@ -5,6 +5,9 @@ Float carrier — IEEE special values are native there, so the KIND (nan/+inf/-i
 agree exactly and finite values within a float bound.
 predicate: at t = 0 or v = 0 prices equal the certain payoff, deltas their limits, nothing is NaN;
 negative t / v raise; BlackScholes / WhalleyWilmott hedgers give finite hedges and P&L.
+input class "negative": a negative time to maturity / volatility in one row of a tensor, through every route (functionals, module methods,
+module(input) = forward, Hedger(module)(input), WhalleyWilmott, the state of a derivative with sigma < 0 / dt < 0, Hedger.get_input): an error, never a number;
+input class "signed zero": t or v = -0.0 is zero.
 input class "on the strike": markets (float32, the default dtype, and float64) whose spot sits EXACTLY on a strike that is not a binary
 fraction (0.9, 0.95, 1.03, 1.05, 1.1, 1.2; init_state=(strike,)), every parameter taken from the derivative / the hedger's features:
 zero-volatility paths resting on the strike (European price 0, delta +-1/2, American binary price 1, lookback price 0) and ordinary
@@ -28,8 +31,8 @@ def kind(x):
     return "fin"
 
 
-def call_bs(torch, fnl, fn, s, t, v, k, m, call):
-    T = lambda x: torch.tensor(x, dtype=torch.float64)
+def call_bs(torch, fnl, fn, s, t, v, k, m, call, dtype=None):
+    T = lambda x: torch.tensor(x, dtype=dtype or torch.float64)
     if fn in ("d1", "d2"):
         return getattr(fnl, fn)(T(s), T(t), T(v))
     f = getattr(fnl, "bs_" + fn)
@@ -142,6 +145,31 @@ def check(ctx):
                          key=f"bs_{fn}:value-at-expiry", detail={"impl": got, "expected": exp})
         elif fn in PRICE_FNS + DELTA_FNS and math.isnan(got):
             ctx.fail(f"bs_{fn} is NaN at tiny time to maturity / volatility", case, key=f"bs_{fn}:nan-tiny", detail="nan")
+    # signed zero (deterministic corpus): IEEE -0.0 IS zero (-0.0 == 0.0, it passes the validation t >= 0, v >= 0), so a time to maturity
+    # or a volatility of -0.0 is "zero time to maturity / zero volatility": the price is the certain payoff, the delta its limit, as for +0.0
+    nz_reported = set()
+    for fn in PRICE_FNS + DELTA_FNS:
+        for t, v in [(-0.0, 0.2), (0.1, -0.0), (-0.0, 0.0), (0.0, -0.0), (-0.0, -0.0)]:
+            for s, touched in [(-0.03, False), (0.04, False), (-0.03, True)]:
+                k = g.choice([1.0, 2.0, 0.5])
+                call = g.chance(0.5) if fn in ("european_price", "european_delta", "european_binary_price", "european_binary_delta") else True
+                m = s if (fn.startswith("european") or not touched) else max(s, 0.0) + g.choice([0.0, 0.1])
+                case = {"fn": fn, "s": s, "t": t, "v": v, "k": k, "m": m, "call": call, "which": "negative_zero",
+                        "t_is_negative_zero": math.copysign(1.0, t) < 0, "v_is_negative_zero": math.copysign(1.0, v) < 0}
+                st, val, _ = call_impl(call_bs, torch, fnl, fn, s, t, v, k, m, call)
+                got = float(val) if st == "ok" else val
+                ctx.case(case, nontrivial=True, tag="bs_negative_zero")
+                ctx.traces += 1
+                reqs.append({"op": "bs", "fn": fn, "call": call, "elems": [enc_flt([s, t, v, k, m])]})
+                metas.append((case, st, got))
+                if st != "ok":
+                    ctx.fail("Black-Scholes function raised at a time to maturity / volatility of -0.0 (which is zero)", case, key=f"bs:{fn}:negative-zero-error", detail=got)
+                    continue
+                exp = certain_payoff(fn, s, k, m, call)
+                if (math.isnan(got) or (exp is not None and not (abs(got - exp) <= 1e-9 * max(1.0, abs(exp))))) and fn not in nz_reported:
+                    nz_reported.add(fn)         # one failing input per function
+                    ctx.fail(f"bs_{fn} at a time to maturity / volatility of -0.0 (IEEE negative zero, == 0) is NaN or differs from the certain payoff / "
+                             "limiting delta it returns for +0.0", case, key=f"bs_{fn}:value-at-expiry:negative-zero", detail={"impl": got, "expected": exp})
     try:
         outs = ctx.driver(reqs)
     except DriverBroken as e:
@@ -436,6 +464,183 @@ def check(ctx):
                 ctx.fail("the Black-Scholes price evaluated on the hedger's features of the last time step (time to maturity 0) differs from derivative.payoff()",
                          case | {"path": p_}, key=f"bs_module:{option}:maturity-features-vs-payoff" + (":on-strike" if source == "on_strike" else ""),
                          detail={"price": feat_price[p_], "payoff": pay[p_], "spot[path]": sp[p_], "strike": k})
+    # ---------------- NEGATIVE time to maturity / volatility through EVERY route that leads to a Black-Scholes formula: "rejected with an
+    # error instead of a silent NaN" (or a silent number).  The functional block above feeds negative 0-dim float64 arguments to the
+    # functionals; here the negative entry sits in ONE row of a tensor of otherwise legal rows (float32 and float64, shapes (1,F) / (N,F) /
+    # (N,T,F), magnitudes from 1.0 down to the smallest negative number of the dtype) and is fed through: the functionals of the option kind
+    # (price, delta, gamma, vega, theta); the methods of the module (BS<kind>(...), BS<kind>.from_derivative, BlackScholes(derivative)) with
+    # positional and named columns; module(input) = forward on the concatenated input (what a hedger calls); Hedger(module, inputs)(input);
+    # WhalleyWilmott(derivative)(input), its width() and a Hedger on it.  Correspondence: the offending row goes to the model of the module
+    # forward (op "ww_module", what = "bs" / "forward") and of the functionals (op "bs"), which must reject it too.
+    GREEKS = ["price", "delta", "gamma", "vega", "theta"]
+    MODEL_BS_FNS = set(PRICE_FNS + DELTA_FNS + OTHER_FNS + [f"{k_}_{w_}" for k_ in ("european_binary", "american_binary") for w_ in ("gamma", "vega", "theta")])
+    neg_reqs, neg_meta = [], []
+
+    def must_reject(route, fn_, case, key_prefix):
+        """the PROPERTY: the call raises (the ValueError of the validation); returns (status, value) for the correspondence"""
+        st, out, _ = call_impl(fn_)
+        ctx.stats[f"negative:route={route}"] += 1
+        if st == "ok":
+            shown = out.detach().reshape(-1).tolist()[:8] if hasattr(out, "detach") else str(out)[:200]
+            ctx.fail(f"a negative time to maturity / volatility is not rejected by {route}: a number comes back instead of an error", case | {"route": route},
+                     key=f"{key_prefix}:negative-accepted:{route}", detail={"returned": shown})
+        elif out != "value_error":
+            ctx.fail(f"a negative time to maturity / volatility makes {route} raise something else than the ValueError of the validation", case | {"route": route},
+                     key=f"{key_prefix}:negative-error:{route}", detail=out)
+        return st, out
+
+    neg_corpus = [(o_, b_, "float32", "neg_t", 1e-9, "(N,F)") for o_ in sorted(OPT_FN) for b_ in ("direct", "BlackScholes", "WhalleyWilmott")] + \
+                 [(o_, "from_derivative", "float64", "neg_v", 1e-9, "(N,T,F)") for o_ in sorted(OPT_FN)]
+    for it_ in range(len(neg_corpus) + (60 if ctx.tier == "quick" else 900)):
+        option = g.choice(sorted(OPT_FN))
+        built = g.choice(["direct", "from_derivative", "BlackScholes", "WhalleyWilmott", "WhalleyWilmott"])
+        dtn = g.choice(["float32", "float64"])
+        which = g.choice(["neg_t", "neg_t", "neg_v", "both"])
+        mag = g.choice([1e-9, 0.1, 1.0, 1e-30, "smallest"])
+        shape = g.choice(["(1,F)", "(N,F)", "(N,F)", "(N,T,F)"])
+        if it_ < len(neg_corpus):
+            option, built, dtn, which, mag, shape = neg_corpus[it_]
+        okind = OPT_FN[option]
+        pd = option in ("AmericanBinaryOption", "LookbackOption")
+        dtp = getattr(torch, dtn)
+        if mag == "smallest":
+            mag = 5e-324 if dtn == "float64" else 2.0 ** -149
+        call = True if pd else g.chance(0.5)
+        k = g.choice([0.5, 0.9, 1.0, 1.1, 2.0])
+        cost = g.choice([0.0, 1e-3, 1e-2])
+        a_ = g.choice([1.0, 0.5])
+        d_ = getattr(pin, option)(pin.BrownianStock(cost=cost, dtype=dtp), call=call, strike=k)
+        cls = getattr(pnn, "BS" + option)
+        if built == "direct":
+            mod = cls(strike=k) if pd else cls(call=call, strike=k)
+        elif built == "from_derivative":
+            mod = cls.from_derivative(d_)
+        elif built == "BlackScholes":
+            mod = pnn.BlackScholes(d_)
+        else:
+            mod = pnn.WhalleyWilmott(d_, a=a_)
+        names = list(mod.inputs())
+        N_ = 1 if shape == "(1,F)" else g.choice([2, 3, 5])
+        T_n = g.choice([1, 2, 3]) if shape == "(N,T,F)" else 1
+        rows = []
+        for _i in range(N_ * T_n):
+            s_ = g.choice([0.0, -0.03, 0.04, -0.5, 0.5, 1e-12])
+            rows.append({"log_moneyness": s_, "max_log_moneyness": (max(s_, 0.0) + g.choice([0.0, 0.0, 0.1])) if g.chance(0.7) else s_,
+                         "time_to_maturity": g.choice([0.0, 0.1, 1.0]), "volatility": g.choice([0.0, 0.2, 1.0]),
+                         "prev_hedge": g.choice([0.0, 0.3, 1.0, -0.25])})
+        bad = g.randint(0, len(rows) - 1)
+        if which in ("neg_t", "both"):
+            rows[bad]["time_to_maturity"] = -mag
+        if which in ("neg_v", "both"):
+            rows[bad]["volatility"] = -(mag if which == "neg_v" else g.choice([1e-9, 0.2]))
+        x = torch.tensor([[r_[nm] for nm in names] for r_ in rows], dtype=dtp)
+        bad_row = [float(z) for z in x[bad].tolist()]                  # the numbers of the dtype
+        if not (bad_row[names.index("time_to_maturity")] < 0 or bad_row[names.index("volatility")] < 0):
+            raise InternalError("negative-input scenario: no negative entry after conversion to the dtype")
+        x = x.reshape(N_, T_n, len(names)) if shape == "(N,T,F)" else x
+        case = {"negative": which, "option": option, "built": built, "dtype": dtn, "call": call, "strike": k, "cost": cost, "inputs": names,
+                "input_shape": list(x.shape), "offending_row": bad_row, "offending_row_index": bad, "rows": len(rows)}
+        ctx.case(case, True, tag="negative_routes")
+        ctx.stats[f"negative:{which}:{built}"] += 1
+        ctx.traces += 1
+        prefix = f"ww_module:{okind}" if built == "WhalleyWilmott" else f"bs_module:{okind}"
+        cols = [x[..., [i_]] for i_ in range(len(names))] if g.chance(0.5) else [x[..., i_] for i_ in range(len(names))]
+        if built == "WhalleyWilmott":
+            fst = must_reject("WhalleyWilmott.forward", lambda: mod(x), case, prefix)
+            must_reject("WhalleyWilmott.width", lambda: mod.width(x[..., :-1]), case, prefix)
+            must_reject("Hedger(WhalleyWilmott).forward", lambda: Hedger(mod, names)(x if x.dim() == 3 else x.unsqueeze(1)), case, prefix)
+            neg_reqs.append({"op": "ww_module", "what": "forward", "kind": okind, "call": call, "strike": float_bits(k), "cost": float_bits(cost),
+                             "a": float_bits(a_), "rows": enc_flt([bad_row])})
+            neg_meta.append((case | {"route": "WhalleyWilmott.forward"}, fst))
+        else:
+            for meth in GREEKS:
+                if g.chance(0.5):
+                    must_reject(f"module.{meth}", lambda: getattr(mod, meth)(*cols), case, prefix)
+                else:
+                    must_reject(f"module.{meth}", lambda: getattr(mod, meth)(**dict(zip(names, cols))), case, prefix)
+            fst = must_reject("module.forward", lambda: mod(x), case, prefix)
+            must_reject("Hedger(module).forward", lambda: Hedger(mod, names)(x if x.dim() == 3 else x.unsqueeze(1)), case, prefix)
+            neg_reqs.append({"op": "ww_module", "what": "bs", "kind": okind, "call": call, "strike": float_bits(k), "cost": float_bits(cost),
+                             "a": float_bits(1.0), "rows": enc_flt([bad_row])})
+            neg_meta.append((case | {"route": "module.forward"}, fst))
+            flat = x.reshape(-1, len(names))
+            col = lambda nm: flat[:, names.index(nm)].tolist()
+            s_l, t_l, v_l = col("log_moneyness"), col("time_to_maturity"), col("volatility")
+            m_l = col("max_log_moneyness") if pd else s_l
+            for meth in GREEKS:
+                fn = f"{okind}_{meth}"
+                fst = must_reject(f"bs_{fn}", lambda: call_bs(torch, fnl, fn, s_l, t_l, v_l, k, m_l, call, dtype=dtp), case, f"bs:{fn}")
+                if fn in MODEL_BS_FNS:
+                    neg_reqs.append({"op": "bs", "fn": fn, "call": call, "elems": [enc_flt([s_l[bad], t_l[bad], v_l[bad], k, m_l[bad]])]})
+                    neg_meta.append((case | {"route": f"bs_{fn}"}, fst))
+    # ... and where the negative number is the STATE of the derivative the module / the hedger reads its parameters from: an underlier whose
+    # volatility is negative (BrownianStock(sigma < 0): the paths are those of |sigma|, the volatility buffer is sigma), an underlier with dt < 0
+    # (time to maturity = (T - 1 - i) dt < 0 at every step but the last), and the feature tensor of a healthy market (Hedger.get_input) with one
+    # time-to-maturity / volatility entry replaced by a negative number: price() / delta() / gamma() without arguments, forward on the features,
+    # Hedger.compute_hedge / compute_pl -- none may return numbers
+    for _ in range(16 if ctx.tier == "quick" else 200):
+        option = g.choice(sorted(OPT_FN))
+        okind = OPT_FN[option]
+        mk = g.choice(["bs", "ww"])
+        source = g.choice(["negative_sigma", "negative_dt", "get_input_perturbed", "get_input_perturbed"])
+        dtn = g.choice(["float32", "float64"])
+        dtp = getattr(torch, dtn)
+        call = g.chance(0.5) if option in ("EuropeanOption", "EuropeanBinaryOption") else True
+        k = g.choice([0.9, 1.0, 1.1])
+        cost = g.choice([0.0, 1e-3])
+        n_steps = g.choice([2, 3, 5])
+        tseed = g.randint(0, 2 ** 31 - 1)
+        torch.manual_seed(tseed)
+        sig = -g.choice([0.2, 1e-9, 1.0]) if source == "negative_sigma" else g.choice([0.2, 0.0])
+        dt_ = -1 / 250 if source == "negative_dt" else 1 / 250
+        u = pin.BrownianStock(sigma=sig, cost=cost, dt=dt_, dtype=dtp)
+        d = getattr(pin, option)(u, call=call, strike=k, maturity=n_steps / 250)
+        if source == "negative_dt":
+            u.register_buffer("spot", torch.tensor([[g.choice([0.9, 1.0, 1.05, 1.2]) for _j in range(n_steps + 1)] for _i in range(g.choice([1, 3]))], dtype=dtp))
+        else:
+            d.simulate(n_paths=g.choice([1, 3, 8]))
+        case = {"negative": source, "option": option, "model": mk, "dtype": dtn, "call": call, "strike": k, "cost": cost, "sigma": sig, "dt": dt_,
+                "n_steps": n_steps, "torch_seed": tseed, "spot": u.spot[:4].tolist()}
+        ctx.case(case, True, tag="negative_state")
+        ctx.stats[f"negative:state:{source}:{mk}"] += 1
+        ctx.traces += 1
+        bsm = pnn.BlackScholes(d)
+        mod = bsm if mk == "bs" else pnn.WhalleyWilmott(d)
+        prefix = (f"ww_module:{okind}" if mk == "ww" else f"bs_module:{okind}") + ":state"
+        st, feats, _ = call_impl(Hedger(bsm, bsm.inputs()).get_input, d, None)
+        if st != "ok":
+            raise InternalError(f"Hedger.get_input raised on a simulated derivative: {feats}")
+        feats = feats.detach().clone()                                      # (N, T, F) of the Black-Scholes module
+        names = list(bsm.inputs())
+        if source == "get_input_perturbed":
+            i_, j_ = g.randint(0, feats.size(0) - 1), g.randint(0, feats.size(1) - 1)
+            nm = g.choice(["time_to_maturity", "volatility"])
+            feats[i_, j_, names.index(nm)] = -g.choice([1e-9, 0.1, 1.0, 2.0 ** -149])
+            case = case | {"replaced": nm, "at": [i_, j_], "features[at]": feats[i_, j_].tolist()}
+        if not bool(((feats[..., names.index("time_to_maturity")] < 0) | (feats[..., names.index("volatility")] < 0)).any()):
+            raise InternalError("negative-state scenario: the features of the derivative contain no negative time to maturity / volatility")
+        if mk == "ww":
+            feats = torch.cat([feats, torch.full_like(feats[..., :1], g.choice([0.0, 0.3, 1.0]))], dim=-1)
+        hh = Hedger(mod, mod.inputs())
+        must_reject("forward(features of the derivative)", lambda: mod(feats), case, prefix)
+        must_reject("Hedger.forward(features of the derivative)", lambda: hh(feats), case, prefix)
+        if source != "get_input_perturbed":
+            with torch.no_grad():
+                must_reject("Hedger.compute_hedge", lambda: hh.compute_hedge(d), case, prefix)
+                must_reject("Hedger.compute_pl", lambda: hh.compute_pl(d), case, prefix)
+            for meth in ("price", "delta", "gamma"):
+                must_reject(f"BlackScholes(derivative).{meth}()", lambda: getattr(bsm, meth)(), case, f"bs_module:{okind}:state")
+    try:
+        nouts = ctx.driver(neg_reqs)
+    except DriverBroken as e:
+        ctx.ties_broken.append({"kind": "driver", "detail": str(e)[:1500]})
+        nouts = []
+    for (case, (st, got)), mo in zip(neg_meta, nouts):
+        mm = mo[0]
+        impl = {"err": got} if st != "ok" else {"ok": got.detach().reshape(-1).tolist()[:8]}
+        if mm.get("err") != "value_error" or impl != {"err": "value_error"}:
+            if mm != impl:
+                ctx.disagree("negative_row", case, impl, mm)
     return ctx.finish(
         rule="bs_* functions (4 prices, 3 deltas, European gamma/vega/theta, d1/d2) at t=0, v=0, both, tiny (5e-324,1e-300,1e-16), negative; "
              "|log-moneyness| in {0,1e-12,..,700}, strikes, call/put, running max >= spot; real BS/WW hedgers on simulated Brownian/Heston paths; the four BS modules (direct / from_derivative / BlackScholes, strikes != 1, calls and puts) "
@@ -443,4 +648,8 @@ def check(ctx):
              "evaluated on the hedger's features of the last time step); markets ON the strike (init_state=(K,), K in {0.9,0.95,1.03,1.05,1.1,1.2}, float32 "
              "and float64, sigma 0 = resting on the strike: European delta +-1/2, or sigma in {0.2,0.5}: American binary touched at inception) through "
              "BlackScholes / BS*.from_derivative, the hedger features and the BS / WW hedgers; float32 values within 16 * 2^-23; "
+             "negative t / v (1.0 .. the smallest negative number of float32 / float64) in one row of (1,F) / (N,F) / (N,T,F) inputs through the functionals (price, "
+             "delta, gamma, vega, theta), module methods, module(input), Hedger(module)(input), WhalleyWilmott forward / width, and as the state of the derivative "
+             "(sigma < 0, dt < 0, a perturbed Hedger.get_input) through price() / delta() / gamma(), compute_hedge, compute_pl: all raise ValueError (the offending "
+             "row also to ops ww_module / bs); corpus of signed zeros (t or v = -0.0 is zero); "
              "every case non-trivial; distinct = sha1 of canonical case")
